@@ -705,6 +705,18 @@ func ruleC16_10(c *Ctx) {
 			if !ok || ld.Op != token.MUL || !isHTTPResponsePtr(ld.X.Type()) {
 				return
 			}
+			// only copies that are handed out (returned); a scratch copy used for serialisation is nobody else's
+			returned := false
+			if refs := al.Referrers(); refs != nil {
+				for _, r := range *refs {
+					if _, isRet := r.(*ssa.Return); isRet {
+						returned = true
+					}
+				}
+			}
+			if !returned {
+				return
+			}
 			n++
 			fresh := false
 			if refs := al.Referrers(); refs != nil {
